@@ -607,7 +607,7 @@ func main() {
 	}
 	sum := vh.NewSummary("C12", o,
 		"operation histories (CreateNode/CreateXMLNode/CreateJSONNode, AddChild, RemoveAndReleaseTree) on the real idr API with pooling on and off, "+
-			"plus trees handed out by the seven readers, racing acquisitions on 16 goroutines and a recycle soak (one node, and a parent with 3 children, released and re-created 2^24+2^16 times next to nodes that stay live; every new ID compared with all held IDs); non-trivial = the history contains a removal followed by a creation that got a pooled node back; "+
+			"plus trees handed out by the seven readers (also on concatenated / trailing JSON and XML input with root-selecting targets, with the pool drained after every Read and with a second owner that takes pooled nodes between the Reads and re-audits what it holds), racing acquisitions and build-hold-reverify stress from a cold pool on 16 goroutines (repeated in a child built with -race), and a recycle soak (one node, and a parent with 3 children, released and re-created 2^24+2^16 times next to nodes that stay live; every new ID compared with all held IDs); non-trivial = the history contains a removal followed by a creation that got a pooled node back; "+
 			"distinct by (pooling, operation list)")
 	cw := vh.NewCaseWriter(o, "C12", "Base.Tree Model.Heap", "c12case", "check_case")
 	cw.PerFile = 100 // elaborating the case terms dominates the cost of a shard
